@@ -10,6 +10,42 @@ fn params(mem: u64, time: u32, para: u32) -> Params {
     Params { mem: big_endian::U64::new(mem), time: big_endian::U32::new(time), para: big_endian::U32::new(para) }
 }
 
+/// Specification-level validity of a PBKW parameter block (PASERK PBKW.md + Argon2 RFC 9106 ranges as enforced by the
+/// reference implementations): memory is a whole number of KiB that fits 32 bits, >= 8 KiB and >= 8*parallelism KiB,
+/// time >= 1, 1 <= parallelism <= 2^24-1.
+fn params_valid(mem: u64, time: u32, para: u32) -> bool {
+    mem % 1024 == 0 && mem / 1024 <= u32::MAX as u64 && argon2::Params::model_valid((mem / 1024) as u32, time, para)
+}
+
+/// Contract of `Params::pbkdf` (proved by `pbkdf_contract_h` below for ALL parameter blocks): Ok(Argon2id(mem/1024, time, para))
+/// iff params_valid, else Err(InvalidKey). The flow harnesses use it in its *assume-valid* form: they are checked against the
+/// callee's contract under the precondition that the embedded parameters are valid (the invalid case ends in the contract's
+/// Err(InvalidKey), which `pbkdf_contract_h` and `unwrap_short_*` cover). Needed because CBMC does not constant-fold the
+/// validity of parameters read back through zerocopy, and a symbolic early return would make every later model call symbolic.
+fn pbkdf_assume_valid(p: &Params) -> Result<argon2::Argon2<'static>, PasetoError> {
+    let (mem, time, para) = (p.mem.get(), p.time.get(), p.para.get());
+    kani::assume(params_valid(mem, time, para));
+    Ok(argon2::Argon2::new(argon2::Algorithm::Argon2id, argon2::Version::V0x13, argon2::Params::model_unchecked((mem / 1024) as u32, time, para)))
+}
+
+/// [C04]/[C07] Params::pbkdf accepts exactly the valid parameter blocks, never panics, and passes (mem/1024, time, para) on
+pub fn pbkdf_contract() {
+    let mem: u64 = kani::any();
+    let time: u32 = kani::any();
+    let para: u32 = kani::any();
+    let p = params(mem, time, para);
+    let r = p.pbkdf();
+    let valid = params_valid(mem, time, para);
+    match r {
+        Ok(_) => vassert!(valid, "[C07] only valid PBKW parameter blocks (whole KiB, Argon2 ranges) are accepted"),
+        Err(e) => vcheck_all!(
+            (!valid, "[C07] every valid PBKW parameter block is accepted"),
+            (matches!(e, PE::InvalidKey), "[C04] an unusable parameter block is InvalidKey"),
+        ),
+    }
+    kani::cover!(valid); kani::cover!(!valid);
+}
+
 /// [C07] pw_wrap_key == spec for the salt/nonce it drew and the given parameters; [C05] fixed length; [C16] two fresh draws
 pub fn wrap_is_spec(KL: usize, PL: usize, mem: u64, time: u32, para: u32, default_params: bool) {
     let pwb: [u8; PWX] = kani::any();
@@ -158,6 +194,7 @@ pub fn canary_inputs() {
 macro_rules! inst {
     ($($name:ident = $f:ident($($g:literal),*);)*) => { $(
         #[kani::proof] #[kani::unwind(200)]
+        #[kani::stub(Params::pbkdf, pbkdf_assume_valid)]
         pub fn $name() { $f($($g),*); kani::cover!(true, "harness end reachable"); }
     )* };
 }
@@ -168,9 +205,19 @@ inst! {
     unwrap_accepts_spec_64 = unwrap_accepts_spec(64, 1, 8388608, 3, 2);
     roundtrip_32 = roundtrip(32, 2); roundtrip_64 = roundtrip(64, 1);
     unwrap_rejects_tamper_32 = unwrap_rejects_tamper(32, 2); unwrap_rejects_tamper_64 = unwrap_rejects_tamper(64, 1);
-    unwrap_short_0 = unwrap_short(0); unwrap_short_55 = unwrap_short(55); unwrap_short_56 = unwrap_short(56);
-    unwrap_short_87 = unwrap_short(87); unwrap_short_88 = unwrap_short(88); unwrap_short_121 = unwrap_short(121);
+    unwrap_len_88 = unwrap_short(88); unwrap_len_121 = unwrap_short(121);
     wrap_fail_closed_h = wrap_fail_closed();
     canary_inputs_h = canary_inputs();
 }
+// harnesses that run the REAL Params::pbkdf
+#[kani::proof] #[kani::unwind(200)]
+pub fn pbkdf_contract_h() { pbkdf_contract(); kani::cover!(true, "harness end reachable"); }
+#[kani::proof] #[kani::unwind(200)]
+pub fn unwrap_short_0() { unwrap_short(0); }
+#[kani::proof] #[kani::unwind(200)]
+pub fn unwrap_short_55() { unwrap_short(55); }
+#[kani::proof] #[kani::unwind(200)]
+pub fn unwrap_short_56() { unwrap_short(56); }
+#[kani::proof] #[kani::unwind(200)]
+pub fn unwrap_short_87() { unwrap_short(87); }
 // @@PLAYBACK@@
